@@ -606,6 +606,7 @@ func GenSched(r *sim.Rand, tier string) sim.Script {
 	if !lossy && r.Chance(1, 7) {
 		// judged saves: plain writes, reads and saves (half of them abandoned by their caller)
 		s.SaveJudge = true
+		s.Reopen = r.Chance(1, 2)
 		for t := 0; t < nt && t < 3; t++ {
 			var ops []Op
 			for i := 2 + r.Intn(4); i > 0; i-- {
@@ -619,9 +620,9 @@ func GenSched(r *sim.Rand, tier string) sim.Script {
 				case 2:
 					ops = append(ops, Op{K: "get", P: p})
 				case 3:
-					ops = append(ops, Op{K: "save"})
+					ops = append(ops, Op{K: "save", N: int64(r.Intn(2))}) // N=1: with deletes (Reopen runs)
 				case 4:
-					ops = append(ops, Op{K: "savecancel"})
+					ops = append(ops, Op{K: "savecancel", N: int64(r.Intn(2))})
 				default:
 					ops = append(ops, Op{K: "iter"})
 				}
